@@ -29,8 +29,9 @@ var locksetTable = []locksetInst{
 	{"cmd/thruserv", "ipLimiter", "mu", []string{"buckets", "rate", "burst"}, []string{"C14"}, "an unsynchronised map access crashes the server", 5},
 	{"cmd/thruserv", "sessionExpiryManager", "mu", []string{"timers"}, []string{"C14"}, "an unsynchronised map access crashes the server", 4},
 	{"internal/app", "SnapshotSender", "mu", []string{"receivers", "queue", "active"}, []string{"C12"}, "a racy slot test starts more transfers than max-receivers; a racy queue edit reorders or loses receivers", 25},
-	{"internal/transfer", "sendFileState", "mu", []string{"nextChunk", "inFlight", "scheduleDone", "endSent", "verifyPending", "resendPending", "resendChunk", "plan", "readyErr"}, []string{"C17"}, "a racy take/finish step dispatches a chunk twice or emits FileEnd twice", 30},
-	{"internal/transfer", "recvFileStateMux", "mu", []string{"remaining", "endReceived", "done"}, []string{"C02", "C01"}, "a racy remaining-- finalises a file with a chunk missing", 8},
+	{"internal/transfer", "sendFileState", "mu", []string{"nextChunk", "inFlight", "scheduleDone", "endSent", "verifyPending", "resendPending", "resendChunk", "plan", "readyErr", "framesSent"}, []string{"C17"}, "a racy take/finish step dispatches a chunk twice or emits FileEnd twice", 30},
+	{"internal/transfer", "recvFileStateMux", "mu", []string{"remaining", "endReceived", "done", "framesRecv", "endFrames", "needEnd"}, []string{"C02", "C01"}, "a racy remaining-- / frame count finalises a file with a chunk missing or a repair pending", 8},
+	{"internal/transfer", "fileWaitRegistry", "mu", []string{"waiters", "signaled"}, []string{"C03"}, "an unsynchronised map access crashes the receiver; a racy signalled-set test loses a wake-up", 4},
 }
 
 func init() {
